@@ -732,6 +732,8 @@ func RunConc(p Params) *Result {
 		c.V = &Violation{Tag: "deadlock", Sig: "deadlock:" + w.Deadlock.Kind, Msg: w.Deadlock.String()}
 	case w.OverSteps:
 		res.Incon = "step budget exhausted"
+	case w.Stalls > 0:
+		res.Incon = "stall: the code under test waited on a primitive the simulator does not see and was released by another task"
 	case !plan.Linear:
 		res.Stats["not-checked-for-linearizability"]++
 	default:
@@ -755,6 +757,7 @@ func RunConc(p Params) *Result {
 		}
 	}
 	res.V = c.V
+	res.Stalls = w.Stalls
 	if res.V != nil || p.Extra["dump"] == 1 {
 		res.Ops = opsDesc
 	}
